@@ -4,6 +4,11 @@ import json, os, subprocess
 V = os.path.dirname(os.path.abspath(__file__))
 
 CHECKS = {
+ 'C07': dict(cat='model_checking', tech='exhaustive replay of the bounded shape corpora on sanitizer-instrumented real code with exact-size allocations; two-fill non-interference',
+             text='The complete corpora of the functional properties (every length / level / alphabet / count in the stated bounds) are executed on the real code built with AddressSanitizer + bounds, '
+                  'ASSERT active and exact-size blobs (page size 1), each caller buffer / state / stack in its own allocation of exactly the documented size, in the 64-bit and 32-bit word configurations; '
+                  'each case runs twice with all caller-owned memory pre-filled with 0x00 and 0xA5 and the results must coincide.',
+             note='trusted: ASan/-fsanitize=bounds runtime of clang 14, the library ASSERTs; alignment/signed-overflow UBSan kinds deliberately not deciding (see DESIGN sec. 2)', ref='4/C07'),
  'C11': dict(cat='model_checking', tech='exhaustive enumeration of buffer placements (every dest-src offset x auxiliary-input positions) on the real code; relational oracle = disjoint-buffer run',
              text='For every function whose header says its buffers may overlap: every relative offset of dest against src in [-(len+16), len+16] x each auxiliary input (key, IV, header, MAC, associated data) '
                   'outside / at three positions inside the output region, excluding the combinations the header forbids; memMove and memJoin completely on a 20-octet arena; key-inside-state for every *Start and '
